@@ -80,6 +80,9 @@ def target_defs(repo: Path) -> str:
             "Definition load_merge (config cli : settings) : settings := merge config cli.\n")
 
 
+KW_INDEX: dict[tuple[str, str], int] = {}
+
+
 def typeshed_index() -> tuple[dict[str, int], dict[str, int]]:
     """name -> minimal minor version guard, for module-level names ("shlex.join") and
     for methods of builtins classes (".removeprefix")."""
@@ -104,6 +107,10 @@ def typeshed_index() -> tuple[dict[str, int], dict[str, int]]:
             elif isinstance(st, (ast.FunctionDef, ast.AsyncFunctionDef, ast.ClassDef)):
                 k = prefix + st.name
                 sink[k] = min(sink.get(k, 99), lo)
+                if not isinstance(st, ast.ClassDef):
+                    # keyword arguments: the oldest version in which a function of that name takes that keyword
+                    for a in st.args.args + st.args.kwonlyargs:
+                        KW_INDEX[st.name, a.arg] = min(KW_INDEX.get((st.name, a.arg), 99), lo)
                 if isinstance(st, ast.ClassDef):
                     walk(st.body, lo, k + ".", sink)
             elif isinstance(st, (ast.Assign, ast.AnnAssign)):
@@ -157,9 +164,19 @@ def features_of(code: int, msg: str, mod_names, methods) -> list[tuple[int, str]
         v = methods.get(a)
         if v:
             out.append((v, f".{a}() (typeshed guard 3.{v})"))
+    for m in re.finditer(r"([A-Za-z_]\w*)\(([^()]*)\)", text):
+        for kw in re.findall(r"(?<![\w.])([a-z_]\w*)=(?!=)", m.group(2)):
+            v = KW_INDEX.get((m.group(1), kw))
+            if v and v < 99:
+                out.append((v, f"{m.group(1)}({kw}=) (typeshed guard 3.{v})"))
     if code in CODE_FEATURES:
         out.append(CODE_FEATURES[code])
     return out
+
+
+def lines_and(path: Path, line: int) -> str:
+    ls = path.read_text().split("\n")
+    return " / ".join(x.strip() for x in ls[max(0, line - 1): line + 2])[:160]
 
 
 def third_party(path: str) -> bool:
@@ -274,6 +291,41 @@ def run(ctx: Ctx) -> None:
             for k in lost[:3]:
                 ctx.report(f"not-monotone:FURB{k[3]}", f"FURB{k[3]} reported at 3.{minor-1} but not at 3.{minor}",
                            {"file": k[0], "line": k[1], "versions": [minor - 1, minor]})
+    # every idiom of the C01 rule table and every neighbouring shape of it (other keywords, bounds, sibling methods): a check
+    # that accepts one of them must not answer with something newer than the target
+    try:
+        from .c01 import lint_program, variants
+        from .c01_rules import RULES
+        allr = list(RULES)
+        for r0 in RULES:
+            allr += variants(r0)
+        lines_ = ["from typing import Any", "import os, io, re, math, hashlib, shlex, string", "from pathlib import Path"]
+        for i, r0 in enumerate(allr):
+            lines_.append(((r0.setup or "") + lint_program(r0, i)).rstrip("\n"))
+        import tempfile as _tf
+        with _tf.TemporaryDirectory(prefix="c15v-") as tdv:
+            vf = Path(tdv) / "shapes.py"
+            vf.write_text("\n".join(lines_) + "\n")
+            for minor in (7, 9):
+                errs, _ = lint([str(vf)], minor)
+                n_ = 0
+                for e in errs:
+                    if isinstance(e, str):
+                        continue
+                    n_ += 1
+                    feats = features_of(e.code, e.msg, mod_names, methods)
+                    need = max([v for v, _ in feats], default=7)
+                    ctx.case(("shape", e.code, e.msg, minor), nontrivial=bool(feats))
+                    if need > minor:
+                        why = [n for v, n in feats if v > minor]
+                        src_line = lines_and(vf, e.line)
+                        ctx.report(f"too-new:FURB{e.code}", f"FURB{e.code} at --python-version 3.{minor} proposes {why[0]} for `{src_line}`: {e.msg}",
+                                   {"source": src_line, "python_version": f"3.{minor}", "message": e.msg, "cmd": f"refurb --enable-all --python-version 3.{minor} <file with that statement>"})
+                ctx.count(f"shape-diagnostics@3.{minor}", n_)
+    except TranslateError:
+        raise
+    except Exception as ex:  # noqa: BLE001
+        ctx.notes.append(f"neighbouring-shape corpus not linted: {type(ex).__name__}: {ex}")
     # both sources name a version: the command line's is the target (load_settings -> merge -> get_python_version)
     import tempfile
     from refurb.main import run_refurb
@@ -328,5 +380,5 @@ def run(ctx: Ctx) -> None:
                        not mism, "; ".join(mism))
     ctx.rule("every diagnostic emitted on (idiom corpus + test/data) at every target 3.7..3.13; non-trivial = message with a dated feature or from a gated check; distinct by (code, message, target)")
     ctx.extra["codes_observed"] = len(seen_codes)
-    ctx.resolve_broken({"never_too_new": "too-new:", "monotone": "not-monotone:", "command_line_version_is_the_target": "too-new:", "config_version_otherwise": "target:", "both_sources_disagree": "too-new:",
+    ctx.resolve_broken({"translate gates": "too-new:", "never_too_new": "too-new:", "monotone": "not-monotone:", "command_line_version_is_the_target": "too-new:", "config_version_otherwise": "target:", "both_sources_disagree": "too-new:",
                         "translate Settings.merge / get_python_version / load_settings (which version is the target)": "too-new:"}, b.first_error if b else "")
